@@ -410,5 +410,6 @@ CLAUSES = [
         shards_quick=4,
         required=("how:append", "how:extend", "how:insert", "how:list", "how:tfy", "how:ctor", "number"),
         rule="metachar slot not an only child",
+        fuzz=60000,
     ),
 ]
